@@ -17,6 +17,7 @@ SimInit ==
   /\ cache = [n \in Name |-> NotCached]
   /\ clock = 0 /\ nextVer = 2
   /\ zlW = None /\ zlR = {} /\ nlW = None
+  /\ names = {} /\ namesExp = -1            \* the real database is reset after construction
   /\ pc = [t \in Thread |-> "idle"] /\ arg = [t \in Thread |-> CHOOSE n \in Name : TRUE]
   /\ ret = [t \in Thread |-> 0] /\ ops = 0
   /\ seen = [t \in Thread |-> {}] /\ how = [t \in Thread |-> "none"]
@@ -27,6 +28,7 @@ SimNext ==
   \/ \E t \in Thread : (Fast(t) \/ Slow(t) \/ ResetStart(t) \/ ResetNames(t)) /\ hist' = hist
   \/ \E t \in Thread : Finish(t) /\ hist' = Append(hist, [op |-> "get", n |-> arg[t], ret |-> ret[t], how |-> how[t]])
   \/ \E t \in Thread : ResetZones(t) /\ hist' = Append(hist, [op |-> "reset"])
+  \/ \E t \in Thread : Idle /\ Avail(t) /\ hist' = Append(hist, [op |-> "avail", names |-> [n \in Name |-> IF n \in names' THEN 1 ELSE 0]])
   \/ /\ Idle /\ ops < MaxOps
      \* (rewrites that touch at most one zone, and ticks weighted up: random
      \*  simulation must reach expiry, revalidation and reload often)
